@@ -6,6 +6,7 @@ package symgo
 import (
 	"bytes"
 	"fmt"
+	"math/big"
 	"go/token"
 	"go/types"
 	"os"
@@ -30,6 +31,53 @@ func selectElem(elems []value, idx *Term, t types.Type) value {
 	if idx.hi != nil && idx.hi.IsInt64() && idx.hi.Int64() < int64(hi) {
 		hi = int(idx.hi.Int64())
 	}
+	if lo > hi {
+		abort("symbolic index with empty feasible range")
+	}
+	// all-constant tables: compose with a previous look-up and detect identities
+	allConst := true
+	for k := lo; k <= hi; k++ {
+		if _, isT := elems[k].(*Term); isT || !isScalar(elems[k]) {
+			allConst = false
+			break
+		}
+		if _, isB := elems[k].(bool); isB {
+			allConst = false
+			break
+		}
+	}
+	if allConst && idx.sel != nil {
+		// elems[table[base]]: one look-up in the composed table
+		in := idx.sel
+		vals := make([]value, len(in.vals))
+		ok := true
+		for k, v := range in.vals {
+			if !v.IsInt64() || v.Int64() < 0 || v.Int64() >= int64(len(elems)) {
+				ok = false
+				break
+			}
+			vals[k] = elems[v.Int64()]
+		}
+		if ok {
+			shifted := in.base
+			if in.lo != 0 {
+				shifted = mkSub(in.base, mkConstI(int64(in.lo)))
+			}
+			return selectElem(vals, shifted, t)
+		}
+	}
+	if allConst {
+		ident := true
+		for k := lo; k <= hi; k++ {
+			if bigOf(elems[k]).Cmp(bi(int64(k))) != 0 {
+				ident = false
+				break
+			}
+		}
+		if ident {
+			return concretize(t, idx) // table[i] == i on the feasible range
+		}
+	}
 	var build func(l, h int) *Term
 	build = func(l, h int) *Term {
 		if l == h {
@@ -41,10 +89,16 @@ func selectElem(elems []value, idx *Term, t types.Type) value {
 		m := (l + h) / 2
 		return mkIte(mkLe(idx, mkConstI(int64(m))), build(l, m), build(m+1, h))
 	}
-	if lo > hi {
-		abort("symbolic index with empty feasible range")
+	r := build(lo, hi)
+	if allConst && r.op == OpIte {
+		vals := make([]*big.Int, hi-lo+1)
+		for k := lo; k <= hi; k++ {
+			vals[k-lo] = bigOf(elems[k])
+		}
+		// the tree is fresh (not shared): annotate it
+		r.sel = &selInfo{base: idx, lo: lo, vals: vals}
 	}
-	return concretize(t, build(lo, hi))
+	return concretize(t, r)
 }
 
 func (fr *frame) load(T types.Type, addr value) value {
